@@ -474,7 +474,7 @@ func TestVerifC06WB(t *testing.T) {
 			if fm == nil {
 				t.Fatalf("c06: the valid preparation message was refused")
 			}
-			w.peer.handleUpdate(fm)
+			w.peer.handleUpdate(fm, nil)
 		}
 		tr.Emit(map[string]any{"ev": "Pre", "obs": c06PreObs(w.observe(true, "none", nil))})
 		m := c06Base(sc.Base, sc.Pt)
@@ -484,7 +484,7 @@ func TestVerifC06WB(t *testing.T) {
 		hand := "reset"
 		if fm != nil {
 			hand = c06HandName(fm.handling)
-			w.peer.handleUpdate(fm)
+			w.peer.handleUpdate(fm, nil)
 		}
 		c06EmitUpd(tr, sc, m, raw, w.observe(fm != nil, hand, notif))
 		w.close()
